@@ -127,7 +127,7 @@ def check_table_obs(model, obs, full, after_put=False):
     Returns (problems, state_key). problems: list of (kind, text)."""
     bad = []
     secs = obs.split(";")
-    want = 18 if full else 14
+    want = 19 if full else 14
     if len(secs) != want:
         return [("format", "observation has %d sections: %s" % (len(secs), obs))], None
     lay = secs[0]
@@ -234,6 +234,19 @@ def check_table_obs(model, obs, full, after_put=False):
                 bad.append(("to-table", "struct/to-table gives length %d count %d deleted %d capacity %d for %d entries" % (ulen, uc, ud, ucap, n)))
         except ValueError:
             bad.append(("format", "bad U section %r" % u))
+        # Y<struct/proto-flatten pairs>,<get on struct/to-table s4 true>,<rawget on it>,<its length>
+        try:
+            yflat, yget, yraw, ylen = secs[18][1:].split(",")
+        except ValueError:
+            yflat = yget = yraw = ylen = "?"
+        sfl = dict(PS)
+        sfl.update(model.m)
+        kv = parse_kv(yflat)
+        if kv is None or sorted(kv) != sorted((kch(k), v) for k, v in sfl.items()):
+            bad.append(("struct-proto-flatten", "struct/proto-flatten gives %r expected %r" % (yflat, sorted(sfl.items()))))
+        if yget != exp_t or yraw != exp_raw or ylen != str(n):
+            bad.append(("struct-to-table-recursive", "struct/to-table s true: get %s rawget %s length %s, expected %s %s %d" % (
+                yget, yraw, ylen, exp_t, exp_raw, n)))
     key = lay + ";" + secs[2]
     return bad, key
 
